@@ -64,6 +64,14 @@ func pfPrelude() []pfCase {
 		return s
 	}
 	none := pfCookie{Kind: "none"}
+	SA := func(mut func(s *pfSess)) pfCookie { // a session for the group-protected upstream, issued by its own provider
+		return S("api.x.io", func(s *pfSess) {
+			s.Slug = "okta"
+			if mut != nil {
+				mut(s)
+			}
+		})
+	}
 	var cases []pfCase
 	// decision table representatives on app.x.io (domain rule only)
 	cases = append(cases, pfCase{Cfg: base, Steps: []pfStep{
@@ -114,13 +122,20 @@ func pfPrelude() []pfCase {
 		st("api.x.io", "/", none, nil),
 		st("api.x.io", "/", S("api.x.io", nil), nil),
 		st("api.x.io", "/", S("api.x.io", func(s *pfSess) { s.Slug = "okta" }), nil),
-		st("api.x.io", "/", S("api.x.io", func(s *pfSess) { s.Valid = -10 }), func(s *pfStep) { s.Profile = pfReply{Kind: "ok", Groups: []string{"ops"}} }),          // left the group
-		st("api.x.io", "/", S("api.x.io", func(s *pfSess) { s.Valid = -10 }), func(s *pfStep) { s.Profile = pfReply{Kind: "ok", Groups: []string{"ops", "eng"}} }),
-		st("api.x.io", "/", S("api.x.io", func(s *pfSess) { s.Valid = -10 }), func(s *pfStep) { s.Profile = pfReply{Kind: "status", Status: 503} }),
-		st("api.x.io", "/", S("api.x.io", func(s *pfSess) { s.Valid = -10 }), func(s *pfStep) { s.Profile = pfReply{Kind: "status", Status: 500} }),
-		st("api.x.io", "/", S("api.x.io", func(s *pfSess) { s.Valid = -10 }), func(s *pfStep) { s.Profile = pfReply{Kind: "malformed"} }),
-		st("api.x.io", "/", S("api.x.io", func(s *pfSess) { s.Refresh = -10 }), func(s *pfStep) { s.Profile = pfReply{Kind: "ok", Groups: []string{}} }),
-		st("api.x.io", "/", S("api.x.io", func(s *pfSess) { s.Refresh = -10 }), func(s *pfStep) { s.Profile = pfReply{Kind: "status", Status: 429} }),
+		st("api.x.io", "/", SA(func(s *pfSess) { s.Valid = -10 }), func(s *pfStep) { s.Profile = pfReply{Kind: "ok", Groups: []string{"ops"}} }),          // left the group
+		st("api.x.io", "/", SA(func(s *pfSess) { s.Valid = -10 }), func(s *pfStep) { s.Profile = pfReply{Kind: "ok", Groups: []string{"ops", "eng"}} }),
+		st("api.x.io", "/", SA(func(s *pfSess) { s.Valid = -10 }), func(s *pfStep) { s.Profile = pfReply{Kind: "status", Status: 503} }),
+		st("api.x.io", "/", SA(func(s *pfSess) { s.Valid = -10 }), func(s *pfStep) { s.Profile = pfReply{Kind: "status", Status: 500} }),
+		st("api.x.io", "/", SA(func(s *pfSess) { s.Valid = -10 }), func(s *pfStep) { s.Profile = pfReply{Kind: "malformed"} }),
+		st("api.x.io", "/", SA(func(s *pfSess) { s.Refresh = -10 }), func(s *pfStep) { s.Profile = pfReply{Kind: "ok", Groups: []string{}} }),
+		st("api.x.io", "/", SA(func(s *pfSess) { s.Refresh = -10 }), func(s *pfStep) { s.Profile = pfReply{Kind: "status", Status: 429} }),
+		// outage on one endpoint only, with and without a grace period already running (refresh answered, /profile not)
+		st("api.x.io", "/", SA(func(s *pfSess) { s.Refresh = -10; s.Grace = i64(-400) }), func(s *pfStep) { s.Profile = pfReply{Kind: "status", Status: 503} }),
+		st("api.x.io", "/", SA(func(s *pfSess) { s.Refresh = -10; s.Grace = i64(-100) }), func(s *pfStep) { s.Profile = pfReply{Kind: "status", Status: 503} }),
+		st("api.x.io", "/", SA(func(s *pfSess) { s.Refresh = -10; s.Grace = i64(-100) }), func(s *pfStep) { s.Profile = pfReply{Kind: "status", Status: 429} }),
+		st("api.x.io", "/", SA(func(s *pfSess) { s.Valid = -10; s.Grace = i64(-400) }), func(s *pfStep) { s.Profile = pfReply{Kind: "status", Status: 503} }),
+		st("api.x.io", "/", SA(func(s *pfSess) { s.Valid = -10; s.Grace = i64(-100) }), func(s *pfStep) { s.Profile = pfReply{Kind: "status", Status: 429} }),
+		st("api.x.io", "/", SA(func(s *pfSess) { s.Refresh = -10; s.Grace = i64(-100) }), nil), // all endpoints back: grace reset
 		st("foo.apps.x.io", "/", none, nil),
 		st("foo.apps.x.io", "/", S("foo.apps.x.io", nil), nil),                                     // address ok, domain rule fails: all-of on requests
 		st("foo.apps.x.io", "/", S("foo.apps.x.io", func(s *pfSess) { s.Email = "bob@y.io" }), nil), // domain ok, address fails
@@ -146,7 +161,7 @@ func pfPrelude() []pfCase {
 	// callback variations
 	cbs := []pfStep{st("app.x.io", "/start-here", none, nil), st("app.x.io", "/second", none, nil)}
 	for _, k := range [][2]string{{"own", "own"}, {"stale-own", "own"}, {"other", "own"}, {"own", "other"}, {"same", "own"}, {"garbage", "own"}, {"own", "garbage"},
-		{"absent", "own"}, {"own", "absent"}, {"session", "session"}, {"otherkey", "own"}, {"own", "otherkey"}} {
+		{"absent", "own"}, {"own", "absent"}, {"other-sid", "own"}, {"own", "other-sid"}, {"other-uri", "own"}, {"own", "other-uri"}, {"session", "session"}, {"otherkey", "own"}, {"own", "otherkey"}} {
 		cbs = append(cbs, pfStep{Host: "app.x.io", StateKind: k[0], CsrfKind: k[1], Code: "c1"})
 	}
 	cbs = append(cbs,
@@ -283,7 +298,7 @@ func init() {
 				u.Domains = []string{"x.io"}
 			}
 			c := pfCase{Cfg: cfg}
-			mode := rng.Intn(4)
+			mode := rng.Intn(5)
 			switch mode {
 			case 0, 1: // decision table: independent single requests
 				ns := 6 + rng.Intn(10)
@@ -351,12 +366,53 @@ func init() {
 				for i := range c.Steps {
 					pfDefaultAns(&c.Steps[i])
 				}
+			case 4: // outage histories: login, then requests across gaps while single endpoints of the authenticator are unavailable
+				host := hosts[rng.Intn(2)]
+				if host == "api.x.io" {
+					c.Cfg.Upstreams[1].Slug = ""
+				}
+				login := pfStep{Host: host, StateKind: "own", CsrfKind: "own", Code: "c1",
+					Redeem: pfReply{Kind: "ok", Token: "at-1", RTok: "rt-1", TTL: []int64{60, 600}[rng.Intn(2)], Email: "ann@x.io"}}
+				c.Steps = append(c.Steps, pfStep{Host: host, Target: "/", Cookie: pfCookie{Kind: "none"}}, login)
+				ns := 5 + rng.Intn(10)
+				down := [3]bool{}
+				un := func() pfReply { return pfReply{Kind: "status", Status: []int{503, 429}[rng.Intn(2)]} }
+				for i := 0; i < ns; i++ {
+					if rng.Intn(3) == 0 {
+						down = [3]bool{rng.Intn(2) == 0, rng.Intn(2) == 0, rng.Intn(2) == 0}
+					}
+					if rng.Intn(6) == 0 {
+						down = [3]bool{}
+					}
+					s := pfStep{Host: host, Target: "/", Cookie: pfCookie{Kind: "jar"}, Gap: []int64{3, 13, 33, 73, 113, 293, 313, 613, 1203}[rng.Intn(9)]}
+					if down[0] {
+						s.Validate = un()
+					}
+					if down[1] {
+						s.Refresh = un()
+					}
+					if down[2] {
+						s.Profile = un()
+					}
+					if rng.Intn(12) == 0 {
+						s.Profile = pfReply{Kind: "ok", Groups: []string{"ops"}}
+					}
+					c.Steps = append(c.Steps, s)
+				}
+				for i := range c.Steps {
+					pfDefaultAns(&c.Steps[i])
+				}
 			case 3: // flows
 				host := hosts[rng.Intn(3)]
-				c.Steps = append(c.Steps, pfStep{Host: host, Target: targets[rng.Intn(len(targets))], Cookie: pfCookie{Kind: "none"}},
-					pfStep{Host: host, Target: targets[rng.Intn(len(targets))], Cookie: pfCookie{Kind: "none"}})
+				t1 := targets[rng.Intn(len(targets))]
+				t2 := targets[rng.Intn(len(targets))]
+				if rng.Intn(2) == 0 {
+					t2 = t1 // two flows started on the same URL
+				}
+				c.Steps = append(c.Steps, pfStep{Host: host, Target: t1, Cookie: pfCookie{Kind: "none"}},
+					pfStep{Host: host, Target: t2, Cookie: pfCookie{Kind: "none"}})
 				ns := 3 + rng.Intn(5)
-				kinds := []string{"own", "own", "own", "stale-own", "other", "same", "garbage", "session", "absent", "otherkey"}
+				kinds := []string{"own", "own", "own", "stale-own", "other", "same", "garbage", "session", "absent", "otherkey", "other-sid", "other-uri"}
 				for i := 0; i < ns; i++ {
 					s := pfStep{Host: host, StateKind: kinds[rng.Intn(len(kinds))], CsrfKind: kinds[rng.Intn(len(kinds))], Code: "c1"}
 					if s.CsrfKind == "same" || s.CsrfKind == "stale-own" {
